@@ -317,7 +317,7 @@ pub fn k_init<N: Nd, const F: usize, const CAP: usize, const FIXLEN: bool, const
                     vassert!(b == pos as u64, "C05 byte offset of the first record");
                     vassert!(l == line, "C05 line number of the first record");
                     cover!(pos >= CAP, "first header beyond the first buffer fill");
-                    cover!(pos > 0 && pos < CAP, "first header after blank lines inside the first fill");
+                    cover!(pos > 0 && (pos < CAP || BLANK >= CAP), "first header after blank lines (inside the first fill unless the instance fixes a longer blank prefix)");
                 }
                 Err(e) => {
                     vassert!(false, "C01 no error when the first non-blank line starts with '>'");
@@ -349,8 +349,8 @@ pub fn k_init<N: Nd, const F: usize, const CAP: usize, const FIXLEN: bool, const
 pub fn k_init_f4_c3<N: Nd>(nd: &mut N) {
     k_init::<N, 4, 3, true, 0>(nd)
 }
-pub fn k_init_f8_c3_b6<N: Nd>(nd: &mut N) {
-    k_init::<N, 8, 3, true, 6>(nd)
+pub fn k_init_f7_c3_b6<N: Nd>(nd: &mut N) {
+    k_init::<N, 7, 3, true, 6>(nd)
 }
 pub fn k_init_f5_c3<N: Nd>(nd: &mut N) {
     k_init::<N, 5, 3, false, 0>(nd)
@@ -363,8 +363,8 @@ harnesses! {
     @reg registry2;
     /// @meta props=C01,C17,C06,C05,C03 tier=quick kind=K stage2=pub timeout=3000 mem=28 unwind=6 unwindset="first_byte:6;seq_io::fill_buf:4" bounds="fasta::Reader::init from New on every file of exactly 4 bytes at capacity 3 (blank prefix crossing one refill), whole reads"
     fak_init_f4_c3 => k_init_f4_c3;
-    /// @meta props=C17,C05,C03,C01:t,C06:t tier=quick kind=K stage2=pub timeout=3000 mem=20 unwind=9 unwindset="first_byte:9;seq_io::fill_buf:4" bounds="fasta::Reader::init from New at capacity 3 on every 8-byte file that starts with 6 line-terminator bytes (any mixture of LF and CR): blank prefix spanning three or more buffer fills, whole reads"
-    fak_init_f8_c3_b6 => k_init_f8_c3_b6;
+    /// @meta props=C17,C05,C03,C01:t,C06:t tier=quick kind=K stage2=pub timeout=3000 mem=20 unwind=8 unwindset="first_byte:6;seq_io::fill_buf:4" bounds="fasta::Reader::init from New at capacity 3 on every 7-byte file that starts with 6 line-terminator bytes (any mixture of LF and CR): blank prefix spanning three or more buffer fills, whole reads"
+    fak_init_f7_c3_b6 => k_init_f7_c3_b6;
     /// @meta props=C01,C05,C17,C03,C06 tier=thorough kind=K stage2=pub timeout=3000 mem=16 unwind=8 unwindset="first_byte:7;seq_io::fill_buf:4" bounds="fasta::Reader::init from New on every file <= 5 bytes at capacity 3 (blank prefix crossing up to 2 refills), whole reads"
     fak_init_f5_c3 => k_init_f5_c3;
     /// @meta props=C01,C05,C17,C03,C06 tier=thorough kind=K stage2=pub timeout=1500 mem=12 unwind=8 unwindset="first_byte:6;seq_io::fill_buf:4" bounds="fasta::Reader::init from New on every file <= 5 bytes at capacity 4, whole reads"
@@ -676,6 +676,52 @@ pub fn k_resume_grow<N: Nd, const F: usize, const CAP: usize, const K: usize>(nd
     resume_grow_at::<N, F, CAP>(nd, &file, make_room, n, c1, K);
 }
 
+/// K: as `k_resume_compact`, the first read of the refill failing with a hard error of any kind:
+/// the error surfaces unchanged and is terminal (no call afterwards can use the moved coordinates)
+pub fn k_resume_fault<N: Nd, const F: usize, const CAP: usize, const K: usize>(nd: &mut N) {
+    use crate::c09::RecPolicy;
+    let file: [u8; F] = any_file::<N, F>(nd);
+    let n = nd.usize_in(CAP, F);
+    let h = nd.usize_in(1, CAP - 1);
+    let kind = nd.u8_in(0, 3);
+    nd.note("format", b"fasta");
+    nd.note("file", &file[h..n]);
+    nd.note_num("cap", CAP as u64);
+    nd.assume(file[h] == b'>');
+    let f = &file[..n];
+    let exp = fa_record(f, h);
+    nd.assume(!exp.overflow);
+    nd.assume(!(exp.complete && exp.next < CAP));
+    let v = ends_before_k(nd, &exp, CAP - 1, K);
+    let st = FaState { start: h, search_pos: if f[CAP - 1] == LF { CAP - 1 } else { CAP }, line: 1, byte: h as u64, state: 2 };
+    let mut src = Src::<F>::plain(file, n);
+    src.fault_at = 1;
+    src.fault_kind = kind;
+    let br = window::<F>(src, CAP, 0);
+    let pol = RecPolicy { answer: None, asked: 0, n: 0 };
+    let mut r = fasta::Reader::verif_from_parts(br, pol, st.start, v, st.line, st.byte, st.search_pos, st.state);
+    let res = r.verif_resume_incomplete_search(true);
+    match res {
+        Ok(_) => {
+            vassert!(false, "C14 an error of the source during a refill is never swallowed");
+        }
+        Err(fasta::Error::Io(e)) => {
+            vassert!(e.kind() == kind_of(kind), "C14 the error kind of the source is preserved by the refill");
+            vassert!(r.verif_state() == 4, "C14 a failed refill is terminal: later calls report the end of the input");
+            vassert!(r.verif_state() == 4, "C06 a failed refill is terminal: later calls do not use the moved coordinates");
+            cover!(true, "refill fails");
+            std::mem::forget(e);
+        }
+        Err(e) => {
+            vassert!(false, "C14 a source error is not turned into another error");
+            std::mem::forget(e);
+        }
+    }
+    std::mem::forget(r);
+}
+pub fn k_resume_fault_f8_c4_k0<N: Nd>(nd: &mut N) {
+    k_resume_fault::<N, 8, 4, 0>(nd)
+}
 pub fn k_resume_compact_f8_c4_k0<N: Nd>(nd: &mut N) {
     k_resume_compact::<N, 8, 4, 0>(nd)
 }
@@ -696,6 +742,8 @@ harnesses! {
     @reg registry4;
     /// @meta props=C01,C03,C09,C06,C14:t tier=quick kind=K stage2=pub timeout=2400 mem=20 unwind=10 unwindset="_resume_incomplete_search:2;seq_io::fill_buf:6" bounds="fasta::Reader::resume_incomplete_search(make_room) for an unfinished record at every start 1..3 of a full buffer of capacity 4 over every file <= 8 bytes, first refill read of 1..3 bytes or complete, policy refusing growth; no line end recorded yet"
     fak_resume_compact_f8_c4_k0 => k_resume_compact_f8_c4_k0;
+    /// @meta props=C14,C06 tier=quick kind=K stage2=pub timeout=1500 mem=16 unwind=10 unwindset="_resume_incomplete_search:2;seq_io::fill_buf:6" bounds="fasta::Reader::resume_incomplete_search(make_room) as fak_resume_compact_f8_c4_k0, the first read of the refill failing with one of 4 error kinds"
+    fak_resume_fault_f8_c4_k0 => k_resume_fault_f8_c4_k0;
     /// @meta props=C01,C03,C09,C06,C14:t tier=quick kind=K stage2=pub timeout=2400 mem=20 unwind=10 unwindset="_resume_incomplete_search:2;seq_io::fill_buf:6" bounds="as fak_resume_compact_f8_c4_k0, one line end already recorded"
     fak_resume_compact_f8_c4_k1 => k_resume_compact_f8_c4_k1;
     /// @meta props=X00 tier=pilot kind=K stage2=pub timeout=2400 mem=20 unwind=10 unwindset="_resume_incomplete_search:2;seq_io::fill_buf:7" bounds="fasta::Reader::resume_incomplete_search (both make_room values) for an unfinished first record in a full buffer of capacity 4 over every file <= 7 bytes, first read after the growth of 1..4 bytes or complete, policy granting capacity 8; no line end recorded yet"
